@@ -40,7 +40,8 @@ def run_program(build, prog, route, workdir, qlevel=None, extra_args=(), timeout
     """Render prog into workdir/<id>.as and run it by route 'interp' or 'c'.
     Returns dict(rc, out, err, phase) where phase tells where a failure happened."""
     name = prog["id"]
-    d = os.path.join(workdir, name + "-" + route + ("-q%s" % qlevel if qlevel is not None else ""))
+    tag = "".join(c if c.isalnum() else "_" for c in "".join(extra_args))
+    d = os.path.join(workdir, name + "-" + route + ("-q%s" % qlevel if qlevel is not None else "") + tag)
     os.makedirs(d, exist_ok=True)
     src = os.path.join(d, "p.as")
     with open(src, "w") as fh:
